@@ -48,16 +48,22 @@ def r1_generator_plumbing(chk: Check) -> None:
     if len(seen) < 3:
         chk.undecided("C01.R1", "<discovery>", f"sites={len(seen)}", "fewer from_schema call sites than confirmed by hand (3)")
     bcf = P.func(f"{HYP}:_build_custom_formats")
-    t = unparse(bcf.node, 100000)
-    chk.expect("elif not generation_config.allow_x00:" in t and "custom_formats[HEADER_FORMAT] = header_values(blacklist_characters=" in t, "C01.R1", bcf, "header values exclude NUL when allow_x00 is off", "restriction of the header format not recognised", bcf.loc())
+    guarded = [n for n, _b in ptests("not $c.allow_x00", bcf.node) if isinstance(n, ast.If) and phas("$f[HEADER_FORMAT] = header_values(blacklist_characters=$_)", n.body)]
+    chk.expect(bool(guarded), "C01.R1", bcf, "header values exclude NUL when allow_x00 is off", "restriction of the header format not recognised", bcf.loc())
     for name in ("make_positive_strategy", "make_negative_strategy"):
         f = P.func(f"{HYP}:{name}")
-        chk.expect("custom_formats = _build_custom_formats(custom_formats, generation_config)" in unparse(f.node, 100000), "C01.R1", f, f"{name} builds formats from the generation config", "formats are not built from the config", f.loc())
+        built = pfind("$v = _build_custom_formats($a, $g)", f.node)
+        fs = [c for c in body_calls(f, into_nested=True) if isinstance(c.func, ast.Name) and c.func.id == "from_schema"]
+        chk.expect(bool(built) and name_of(built[0][1], "g") in params_of(f.node) and all(same_var(kwarg(c, "custom_formats"), built[0][1]["v"]) for c in fs), "C01.R1", f, f"{name} builds formats from the generation config", "formats are not built from the config", f.loc())
     # the factory receives the config at every call site
     for ref in (f"{HYP}:get_parameters_strategy", f"{HYP}:_get_body_strategy"):
         f = P.func(ref)
         cs = [c for c in body_calls(f) if isinstance(c.func, ast.Name) and c.func.id == "strategy_factory"]
-        chk.decide(bool(cs) and any(unparse(a) == "generation_config" for a in cs[0].args), "C01.R1", f, "strategy_factory(..., generation_config)", "the strategy factory is called without the generation config", f.loc())
+        cfg_params = [a.arg for a in f.node.args.args + f.node.args.kwonlyargs if "GenerationConfig" in unparse(a.annotation)]
+        if not cs or not cfg_params:
+            chk.undecided("C01.R1", f, "strategy_factory(..., generation_config)", "factory call / GenerationConfig parameter not found", f.loc())
+        else:
+            chk.decide(any(is_var(a, cfg_params[0]) for a in cs[0].args), "C01.R1", f, "strategy_factory(..., generation_config)", "the strategy factory is called without the generation config", f.loc())
 
 
 def r2_length_keywords(chk: Check) -> None:
@@ -81,8 +87,9 @@ def r2_length_keywords(chk: Check) -> None:
             if isinstance(c, ast.Call):
                 r = P.resolve_call(fn, c)
                 if r and r[0] == "func":
-                    body = unparse(r[1].node, 100000)  # type: ignore[union-attr]
-                    if "parsed[0]" in body and "parsed[-1]" in body and "AT_BEGINNING" in body and "AT_END" in body:
+                    node = r[1].node  # type: ignore[union-attr]
+                    body = unparse(node, 100000)
+                    if phas("$p[0] in $_", node) and phas("$p[-1] in $_", node) and "AT_BEGINNING" in body and "AT_END" in body:
                         return True
         return False
 
@@ -93,16 +100,18 @@ def r2_length_keywords(chk: Check) -> None:
         tests = guard_tests(g, is_anchor_evidence)
         ok = any(all(g.dominated_by_edge(n, tid, "true") for n in nodes) for tid, e in tests if not strip_not(e)[1])
         ok = ok or any(all(g.dominated_by_edge(n, tid, "false") for n in nodes) for tid, e in tests if strip_not(e)[1])
+        unknown_guard = [e for tid, e in guard_tests(g, lambda e: any(isinstance(c, ast.Call) for c in ast.walk(e))) if any(g.dominated_by_edge(n, tid, "true") or g.dominated_by_edge(n, tid, "false") for n in nodes)]
         if ok:
             chk.ok("C01.R2", fn, construct, "only when the new pattern is anchored at both ends", fn.loc(d))
+        elif unknown_guard and not tests:
+            chk.undecided("C01.R2", fn, construct, f"the removal is guarded by `{unparse(unknown_guard[0], 80)}`, which is not recognised as an anchoredness test", fn.loc(d))
         else:
             chk.violation("C01.R2", fn, construct,
                           "the length keyword is dropped without evidence that the rewritten pattern is anchored at both ends: for an unanchored pattern the quantifier does not bound the string, so positive data exceeds the declared length",
                           fn.loc(d))
     ifa = P.maybe_func("specs/openapi/patterns.py:is_fully_anchored")
     if ifa is not None:
-        t = unparse(ifa.node, 100000)
-        chk.expect("parsed[0] in" in t and "parsed[-1] in" in t, "C01.R2", ifa, "anchoredness = first and last parsed element are anchors", "shape not recognised", ifa.loc())
+        chk.expect(phas("$p[0] in $_", ifa.node) and phas("$p[-1] in $_", ifa.node), "C01.R2", ifa, "anchoredness = first and last parsed element are anchors", "shape not recognised", ifa.loc())
 
 
 def r3_property_stripping(chk: Check) -> None:
@@ -130,27 +139,27 @@ def r3_property_stripping(chk: Check) -> None:
         chk.decide(True if "readOnly" in ks else (False if "writeOnly" in ks else None), "C01.R3", fn, "requests strip readOnly properties", "request schemas are stripped of writeOnly properties instead: readOnly ones are sent", fn.loc())
     del r6_copy_discipline
     rp = P.func(f"{CONV}:rewrite_properties")
-    t = unparse(rp.node, 100000)
-    chk.expect("del schema['properties'][name]" in t and "required.remove(name)" in t and "forbid_properties(schema, forbidden)" in t, "C01.R3", rp, "stripped properties are removed, un-required and forbidden", "shape not recognised", rp.loc())
+    chk.expect(phas("del $s['properties'][$n]", rp.node) and phas("$r.remove($n)", rp.node) and phas("forbid_properties($s, $f)", rp.node), "C01.R3", rp, "stripped properties are removed, un-required and forbidden", "shape not recognised", rp.loc())
 
 
 def r4_path_location(chk: Check) -> None:
     chk.rule("C01.R4", "DOMINATED(path location => all required, non-empty): for path parameters every property is required and strings get minLength >= 1", floor=2)
     P = chk.project
     fn = P.func(f"{HYP}:get_schema_for_location")
-    ifs = [n for n in walk_body(fn.node) if isinstance(n, ast.If) and unparse(n.test) == "location == 'path'"]
+    ifs = [n for n in walk_body(fn.node) if isinstance(n, ast.If) and pmatch("$_ == 'path'", n.test) is not None]
     if not ifs:
         chk.violation("C01.R4", fn, "path parameters are all required", "path parameters may be omitted / empty: the URL template cannot be filled", fn.loc())
         return
     t = "\n".join(unparse(s, 2000) for s in ifs[0].body)
-    chk.decide(True if "schema['required'] = list(schema['properties'])" in t else None, "C01.R4", fn, "path: required = all properties", "required list not set from the properties", fn.loc(ifs[0]))
+    chk.decide(True if phas("$s['required'] = list($s['properties'])", ifs[0].body) else None, "C01.R4", fn, "path: required = all properties", "required list not set from the properties", fn.loc(ifs[0]))
     chk.decide(True if "setdefault('minLength', 1)" in t else None, "C01.R4", fn, "path: string values are non-empty", "minLength default not set", fn.loc(ifs[0]))
     rets = simple_return_expr(fn)
-    chk.expect(any("prepare_schema(schema)" in unparse(r) for r in rets), "C01.R4", fn, "schema is prepared (references inlined) before generation", "shape not recognised", fn.loc())
+    chk.expect(any(phas("$_.prepare_schema($s)", r) for r in rets), "C01.R4", fn, "schema is prepared (references inlined) before generation", "shape not recognised", fn.loc())
     # required flag of each parameter is honoured
     ptj = P.func("specs/openapi/parameters.py:parameters_to_json_schema")
     t = unparse(ptj.node, 100000)
-    chk.expect("if parameter.is_required and name not in required:" in t and "required.append(name)" in t, "C01.R4", ptj, "required parameters are listed as required", "shape not recognised", ptj.loc())
+    req = [n for n, b in ptests("$p.is_required", ptj.node) if isinstance(n, ast.If) and phas("$r.append($n)", n.body)]
+    chk.expect(bool(req), "C01.R4", ptj, "required parameters are listed as required", "shape not recognised", ptj.loc())
     chk.expect("'additionalProperties': False" in t, "C01.R4", ptj, "no undeclared parameters are generated", "shape not recognised", ptj.loc())
 
 
@@ -167,10 +176,11 @@ def r5_filters_only_narrow(chk: Check) -> None:
         for k, v in want.items():
             chk.decide(pairs.get(k) == v, "C01.R5", fn, f"{k} values filtered by {v}", f"`{k}` values are filtered by `{pairs.get(k)}`", fn.loc(d))
     maps = [c for c in body_calls(fn) if last_attr(c) == "map"]
-    allowed = {"serialize", "quote_all", "jsonify_python_specific_types"}
+    allowed = {"quote_all", "jsonify_python_specific_types"}
+    serializer_vars = {name_of(b, "v") for _n, b in pfind("$v = $_.get_parameter_serializer($_, $_)", fn.node)} | {name_of(b, "v") for _n, b in pfind("$v = $_.get_parameter_serializer(...)", fn.node)}
     for c in maps:
         a = unparse(c.args[0]) if c.args else "?"
-        chk.decide(a in allowed, "C01.R5", fn, f"strategy.map({a})", f"generated values are additionally transformed by `{a}` after they were generated to fit the schema", fn.loc(c))
+        chk.decide(a in allowed or a in serializer_vars, "C01.R5", fn, f"strategy.map({a})", f"generated values are additionally transformed by `{a}` after they were generated to fit the schema", fn.loc(c))
     shared.memo_key_rule(chk, "C01.R5b", [f for f in P.module(HYP).functions.values()], {("_get_body_strategy", "operation"): "a parameter belongs to exactly one operation (stated next to the cache)"},
                          "MEMO-KEY: cached parameter / body strategies are keyed by factory, location, excluded names and the generation settings they are built from")
 
